@@ -588,6 +588,45 @@ Section Proofs.
   Qed.
 End Proofs.
 
+(* ------------------------------------------------------------------ *_BLOCKED passengers *)
+
+Section Blocked.
+  Variable n ws wc ths thc : N.
+  Variable sched : nat -> action.
+  Variable net : nat -> bool * bool.
+  Variable mask : nat -> bool.
+  Variable lim : st -> N.
+  Variable rx : action.
+  Notation run := (Liveness.run n ws wc ths thc sched net mask).
+  Notation blk := (blk_run n ws wc ths thc sched net mask lim rx).
+
+  Lemma blk_is_reach : forall k, fst (blk k) = psy_reach (snd (blk k)).
+  Proof.
+    induction k as [|k IH]; [reflexivity|].
+    cbn [blk_run]. destruct (blk k) as [b h]. cbn [fst snd] in *.
+    unfold psy_reach. rewrite fold_left_app. fold (psy_reach h). rewrite <- IH. reflexivity.
+  Qed.
+
+  Lemma pghost_app : forall h ops, pghost (h ++ ops) = fold_left pgstep ops (pghost h).
+  Proof. intros. unfold pghost. apply fold_left_app. Qed.
+
+  (* Whenever the sender got a transmit opportunity while flow-control blocked on this window, its
+     *_BLOCKED PeriodicSync has a pending delivery afterwards: the frame is in flight, or wanted, or
+     the delivery timer is armed (periodicsync_never_forgotten) -- the blocked sender keeps an
+     ack-eliciting signal / timer alive instead of going silent. *)
+  Theorem blocked_signalled : forall k,
+    sched k = ASend -> blocked_on n lim (run k) = true ->
+    let b := fst (blk (S k)) in
+    in_flight (pdel b) \/ wants_transmit (pdel b) \/ timer_armed b.
+  Proof.
+    intros k Hs Hb. cbv zeta. rewrite blk_is_reach.
+    apply periodicsync_never_forgotten.
+    cbn [blk_run]. destruct (blk k) as [b h]. cbn [snd].
+    rewrite pghost_app. unfold blk_ops. rewrite Hs, Hb. cbn [app fold_left pgstep].
+    destruct (fst (net k) && snd (net k)); reflexivity.
+  Qed.
+End Blocked.
+
 (* ------------------------------------------------------------------ the hypotheses can be met *)
 
 Definition rr_actions : list action := [ASend; ASendPto; ARead; ARxS; ARxC; ARxPto].
